@@ -86,3 +86,28 @@ func VerifHeaderNames() [3]string {
 
 // VerifMaxInt is the parser's MaxInt constant.
 func VerifMaxInt() int64 { return MaxInt }
+
+// ---- BodyReader (hbody)
+
+// VerifBodyAppend runs the unexported BodyReader.append.
+func VerifBodyAppend(br *BodyReader, data []byte) error { return br.append(data) }
+
+// VerifBodyRelease does to a request body what releaseRequest does: Close, reset to the empty value, back to the pool.
+func VerifBodyRelease(br *BodyReader) {
+	_ = br.Close()
+	*br = emptyBodyReader
+	bodyReaderPool.Put(br)
+}
+
+// VerifBodyState is a read-only snapshot of the reader's fields.
+func (br *BodyReader) VerifBodyState() (index, left, nbuf int, closed bool) {
+	return br.index, br.left, len(br.buffers), br.closed
+}
+
+// VerifCache returns a copy of the unparsed bytes the parser retains.
+func (p *Parser) VerifCache() []byte {
+	if p.bytesCached == nil {
+		return nil
+	}
+	return append([]byte{}, (*p.bytesCached)...)
+}
